@@ -18,7 +18,8 @@ def check(ctx):
                        "controller schedules them, comparing sys.modules, pending table, module attributes, cache, lock and the "
                        "call log after EVERY action, and evaluating the property itself on the real state")
     ctx.assume("module objects are re-inserted, not re-created; glue functions do not call extract (observation O3)")
-    vectors = ["both", "raise", "removes", "imports", "mix3"] if ctx.tier == "thorough" else ["both", "raise", "removes", "imports"]
+    vectors = (["both", "raise", "removes", "imports", "alias", "mix3"] if ctx.tier == "thorough"
+               else ["both", "raise", "removes", "imports", "alias"])
     total_strict = 0
     for vec in vectors:
         over = {}
